@@ -54,6 +54,7 @@ static Poco::Net::SocketAddress *vf_noaddr;
 VConn::VConn(Session& s) : Connection(nullptr, *vf_noaddr, s, Connection::cn_initiator, pm_thread, 10, false) {}
 
 static const FieldTrait *no_traits() { static char raw[sizeof(FieldTrait)]; return reinterpret_cast<const FieldTrait *>(raw); }   // empty table, non-null
+struct VBatch { std::vector<Message *> v; };          // stable C name for the harness's typed storage
 extern "C" {
 // ---- world construction (typed static storage declared by the harness) ----
 void vf_sb_globals()
@@ -96,15 +97,11 @@ void vf_fld_set_time(void *f, long ticks) { static_cast<sending_time *>(f)->set(
 // ---- entries: the methods under test, called qualified ----
 bool vf_sb_send_p(VSessB *s, Message *m, bool destroy, unsigned custom, bool noinc) { return s->Session::send(m, destroy, custom, noinc); }
 bool vf_sb_send_r(VSessB *s, Message *m, unsigned custom, bool noinc) { return s->Session::send(*m, custom, noinc); }
-unsigned vf_sb_send_batch(VSessB *s, Message *m0, Message *m1, Message *m2, unsigned j, bool destroy)
-{
-  std::vector<Message *> v;
-  v.reserve(3);            // no reallocation afterwards: elements are stored by typed pointer stores, never byte-copied
-  if (j > 0) v.push_back(m0);
-  if (j > 1) v.push_back(m1);
-  if (j > 2) v.push_back(m2);
-  return unsigned(s->Session::send_batch(v, destroy));
-}
+// the batch is a std::vector<Message*> value in typed static storage whose three libstdc++ pointers are set over a typed
+// Message* array of the harness (no heap allocation: pointers read back from untyped heap bytes defeat devirtualisation)
+void vf_sb_vec_set(VBatch *b, Message **arr, unsigned j, unsigned cap)
+{ b->v._M_impl._M_start = arr; b->v._M_impl._M_finish = arr + j; b->v._M_impl._M_end_of_storage = arr + cap; }
+unsigned vf_sb_send_batch(VSessB *s, const VBatch *b, bool destroy) { return unsigned(s->Session::send_batch(b->v, destroy)); }
 void vf_sb_update_persist(VSessB *s) { s->Session::update_persist_seqnums(); }
 void vf_sb_recover(VSessB *s) { s->Session::recover_seqnums(); }
 bool vf_sb_resend_request(VSessB *s, unsigned seqnum, const Message *m) { return s->Session::handle_resend_request(seqnum, m); }
